@@ -65,6 +65,7 @@ class Model:
         self.fail_stack: dict[int, list] = {}  # id(exc) -> use_stack snapshot
         self.fail_info: dict[int, tuple] = {}  # id(exc) -> (site, fn depth)
         self.fail_oid: dict[int, int] = {}     # id(exc) -> occurrence id
+        self.last_oid: dict[int, int] = {}     # probe id -> last occurrence
         self.lists: dict[str, int] = {}
         self.tr_stack: list[dict] = []
         self.fn_depth = 0             # nesting of render functions
@@ -83,6 +84,7 @@ class Model:
     def ev(self, e: dict):
         k = e["k"]
         if k == "P":
+            self.last_oid[e["id"]] = e.get("oid")
             try:
                 return self.probe(e["id"])
             except BaseException as exc:
@@ -182,6 +184,7 @@ class Model:
             except BaseException as exc:
                 self.fail_stack[id(exc)] = list(self.use_stack)
                 self.fail_info[id(exc)] = (v.site, self.fn_depth)
+                self.fail_oid[id(exc)] = self.last_oid.get(v.site)
                 raise
         if isinstance(v, RawStr):
             return v
@@ -335,6 +338,7 @@ class Model:
                 if isinstance(seq, BadIter):
                     self.fail_stack[id(exc)] = list(self.use_stack)
                     self.fail_info[id(exc)] = (seq.site, self.fn_depth)
+                    self.fail_oid[id(exc)] = self.last_oid.get(seq.site)
                 raise
             for _ in items:
                 self.body(n)
